@@ -395,6 +395,33 @@ def run_case(case):
                     acc.fail('kn:composite:two-arguments', dict(sub, expression='K(a)+2K(b)'), 'K_%d at x=%g: %s' % (n, x, bad))
                 else:
                     acc.ok(('kn-comp2', n, ix), True, 'kn-derivative')
+        # array arguments, and a caller that changes the tables it got in place: later calls at the same arguments (value and the
+        # K_{n-1}, K_{n+1} of the derivative) are not affected
+        try:
+            obs3 = [_obs_at(pe, float(x), (n, 'arr', i)) for i, x in enumerate(xs[[0, len(xs) // 2, -1]])]
+            vals = np.array([o.value for o in obs3])
+            first = pe.derived_observable(lambda z, **kw: pe.special.kn(n, z), obs3)
+            for m in (abs(n - 1), n, n + 1):
+                tab = pe.special.kn(m, vals)
+                tab *= 3.0
+                tab[0] = -1.0
+            again = pe.derived_observable(lambda z, **kw: pe.special.kn(n, z), obs3)
+            bad = None
+            for i, o in enumerate(obs3):
+                ev = float(ss.kn(n, o.value))
+                ed = float(-0.5 * (ss.kn(abs(n - 1), o.value) + ss.kn(n + 1, o.value)))
+                for nm, r in (('first call', first[i]), ('call after the caller changed earlier tables in place', again[i])):
+                    gd, _sp2 = _prop_deriv(r, o)
+                    if abs(r.value - ev) > 1e-12 * abs(ev) or abs(gd - ed) > 1e-9 * abs(ed):
+                        bad = bad or '%s, component %d: value %r (expected %r), derivative %r (expected %r)' % (nm, i, r.value, ev, gd, ed)
+            if not np.allclose(pe.special.kn(n, vals), ss.kn(n, vals), rtol=1e-13, atol=0):
+                bad = bad or 'kn(%d, array) after the in-place change of an earlier result: %s' % (n, pe.special.kn(n, vals))
+        except Exception as e:
+            bad = 'raised %r' % (e,)
+        if bad:
+            acc.fail('kn:array-argument', dict(case, what='array'), 'K_%d of an array of observables: %s' % (n, bad))
+        else:
+            acc.ok(('kn-arr', n), True, 'kn-derivative')
         for bad in (0.5, 1.5):
             try:
                 pe.special.kn(bad, 1.0)
